@@ -478,6 +478,12 @@ def check_misuse(X, cls, obj, buf, want, ctx, rnd, P):
             idx[ax] = -1
             t = tuple(idx) if r > 1 else idx[0]
             expect_error(f"index-negative:{dyn}items:{r}d", lambda t=t: obj[t], index=t)
+        if r > 1 and all(s > 0 for s in shape) and int(np.prod(shape)) > shape[0]:
+            # a bare integer at or beyond the extent of the first axis (but below the item count) is outside the shape
+            i_ = shape[0]
+            expect_error(f"index-integer-beyond-first-axis:{dyn}items:{r}d", lambda: obj[i_], index=i_)
+            if X.scalar.is_scalar(cls._itemtype):
+                expect_error(f"set-integer-beyond-first-axis:{r}d", lambda: obj.__setitem__(i_, 1), index=i_)
         if r > 1 and all(s > 0 for s in shape):
             expect_error(f"index-rank-too-small:{dyn}items:{r}d", lambda: obj[(0,) * (r - 1)], index=(0,) * (r - 1))
             expect_error(f"index-rank-too-large:{dyn}items:{r}d", lambda: obj[(0,) * (r + 1)], index=(0,) * (r + 1))
@@ -564,6 +570,9 @@ def check_refs(X, sl, rnd, P):
         obj.r = {"a": 5, "b": 1.0, "c": 1, "d": 1}
         if obj.r._offset == s1._offset or obj.r._buffer is not buf or obj.r.a != 5 or s1.a != 99:
             P.add("C08", "bind-value:independent", **ctx)
+            # the old referent is another element (also reached through obj.u and the handle s1): assigning plain data to the
+            # reference must leave it as it was
+            P.add("C10", "ref-assign-data:old-referent-changed-or-still-bound", s1_a=int(s1.a), **ctx)
         # bind-to-foreign-object copies into the holder's buffer
         foreign = S1(a=11, b=0.0, c=0, d=0)
         obj.r = foreign
